@@ -58,7 +58,126 @@ const MH_BIN: &[&str] = &[
     "num_vs_scaled",
 ];
 
+/// Byte classes for every parameter that carries `char` data.  A C `char` is signed on the usual
+/// targets: everything >= 0x80 arrives as a negative value, and nothing in the API restricts callers to
+/// ASCII.  `b00` exists only where the length travels separately (a NUL ends a C string).
+const BYTES_CSTR: &[&str] = &["b7f", "b80", "bff", "utf8"];
+const BYTES_BUF: &[&str] = &["b00", "b7f", "b80", "bff", "utf8"];
+/// the bytes a byte class puts in the middle of an otherwise ordinary input
+fn byte_pat(cls: &str) -> Option<&'static [u8]> {
+    let c = cls.strip_suffix("_force").unwrap_or(cls);
+    let c = c.rsplit('_').next().unwrap_or(c);
+    Some(match c {
+        "b00" => &[0x00],
+        "b7f" => &[0x7f],
+        "b80" => &[0x80],
+        "bff" => &[0xff],
+        "utf8" => &[0xc3, 0xa9], // U+00E9
+        _ => return None,
+    })
+}
+/// `base` with the pattern of the byte class written over its middle (unchanged for other classes)
+fn splice(mut base: Vec<u8>, cls: &str) -> Vec<u8> {
+    if let Some(p) = byte_pat(cls) {
+        let at = base.len() / 2;
+        for (i, b) in p.iter().enumerate() {
+            if at + i < base.len() {
+                base[at + i] = *b;
+            } else {
+                base.push(*b);
+            }
+        }
+    }
+    base
+}
+fn with_prefix(pre: &str, cls: &[&str]) -> Vec<String> {
+    cls.iter().map(|c| if pre.is_empty() { c.to_string() } else { format!("{}_{}", pre, c) }).collect()
+}
+fn with_suffix(cls: &[&str], suf: &str) -> Vec<String> {
+    cls.iter().map(|c| format!("{}_{}", c, suf)).collect()
+}
+
 fn scenarios() -> Vec<(String, String, bool)> {
+    let mut v = scenarios_base();
+    let mut addv = |f: &str, cls: Vec<String>, cmp: bool| {
+        for c in cls {
+            v.push((f.to_string(), c, cmp));
+        }
+    };
+    let strs = |c: &[&str]| -> Vec<String> { c.iter().map(|x| x.to_string()).collect() };
+    // ---- every `char` / byte-buffer parameter with non-ASCII bytes, 0x7f, and 0x00 where a length is passed
+    for f in ["sourmash_aa_to_dayhoff", "sourmash_aa_to_hp"] {
+        addv(f, strs(&["b00", "b7f", "b80", "bff", "all256"]), true);
+    }
+    addv("sourmash_translate_codon", strs(&["hi1", "hi2", "hi3", "utf8_3", "b7f_3", "lower3", "hi5", "large"]), true);
+    addv("hash_murmur", strs(BYTES_CSTR), true);
+    addv("hash_murmur", strs(&["len1", "large"]), true);
+    addv("sourmash_str_from_cstr", strs(&["utf8", "b7f", "b80", "len1", "large"]), true);
+    addv("kmerminhash_add_word", strs(BYTES_CSTR), true);
+    addv("kmerminhash_add_word", strs(&["len1", "large", "zero_zero"]), true);
+    addv("kmerminhash_add_sequence", strs(BYTES_CSTR), true);
+    addv("kmerminhash_add_sequence", with_suffix(BYTES_CSTR, "force"), true);
+    addv("kmerminhash_add_sequence", strs(&["len1", "len_k", "large", "k1", "k2", "zero_zero", "num", "abund", "lowercase"]), true);
+    for m in ["protein", "dayhoff", "hp"] {
+        addv("kmerminhash_add_protein", with_prefix(m, BYTES_CSTR), true);
+        addv("kmerminhash_seq_to_hashes", with_prefix(m, BYTES_BUF), true);
+    }
+    addv("kmerminhash_add_protein", strs(&["len_k", "len_k_minus_1", "large", "k1", "k3", "k20", "dayhoff_k20", "hp_k1", "zero_zero", "lowercase", "stop"]), true);
+    addv("kmerminhash_seq_to_hashes", strs(BYTES_BUF), true);
+    addv("kmerminhash_seq_to_hashes", with_suffix(BYTES_BUF, "force"), true);
+    addv("kmerminhash_seq_to_hashes", with_prefix("translated", BYTES_BUF), true);
+    addv("kmerminhash_seq_to_hashes", with_suffix(&with_prefix("translated", BYTES_BUF).iter().map(|s| s.as_str()).collect::<Vec<_>>(), "force"), true);
+    addv("kmerminhash_seq_to_hashes", strs(&["len1", "large", "k1", "protein_k1", "protein_k20", "protein_len1", "translated_large"]), true);
+    addv("hll_add_sequence", strs(BYTES_BUF), true);
+    addv("hll_add_sequence", with_suffix(BYTES_BUF, "force"), true);
+    addv("hll_add_sequence", strs(&["len1", "len_k", "large", "k1", "lowercase"]), true);
+    for f in ["nodegraph_count_kmer", "nodegraph_get_kmer"] {
+        addv(f, strs(BYTES_CSTR), false);
+        addv(f, strs(&["len1", "long"]), false);
+    }
+    addv("signature_add_sequence", strs(BYTES_CSTR), true);
+    addv("signature_add_sequence", with_suffix(BYTES_CSTR, "force"), true);
+    addv("signature_add_sequence", strs(&["large", "len1"]), true);
+    addv("signature_add_protein", strs(BYTES_CSTR), true);
+    addv("signature_add_protein", with_prefix("reduced", BYTES_CSTR), true);
+    addv("signature_add_protein", strs(&["large", "reduced"]), true);
+    for f in ["signature_set_name", "signature_set_filename"] {
+        addv(f, strs(&["utf8", "b7f", "b80", "bff", "len1", "large"]), true);
+    }
+    // ---- paths: valid non-ASCII names work, byte strings that are not UTF-8 give the Utf8Error code
+    for f in ["hll_from_path", "nodegraph_from_path", "hll_save", "nodegraph_save"] {
+        addv(f, strs(&["utf8", "b7f"]), true);
+    }
+    addv("hll_save", strs(&["bad_utf8"]), true);
+    addv("nodegraph_save", strs(&["bad_utf8"]), true);
+    addv("signatures_load_path", strs(&["utf8", "moltype_utf8"]), true);
+    addv("zipstorage_new", strs(&["utf8", "b00", "len1"]), true);
+    addv("zipstorage_load", strs(&["utf8", "b00", "b80", "len1", "large"]), true);
+    addv("zipstorage_set_subdir", strs(&["utf8", "b00", "b80", "len1", "large"]), true);
+    // ---- serialized buffers made of bytes no format starts with
+    for f in ["hll_from_buffer", "nodegraph_from_buffer", "signatures_load_buffer"] {
+        addv(f, strs(&["hi_bytes", "nul_bytes", "len1", "len1_hi"]), true);
+    }
+    // ---- sizes 0 / 1 / large of the remaining length parameters; k = 1; num = scaled = 0
+    addv("kmerminhash_add_many", strs(&["len1", "large", "zero_zero"]), true);
+    addv("kmerminhash_remove_many", strs(&["len1", "large"]), true);
+    addv("kmerminhash_set_abundances", strs(&["len1", "large"]), true);
+    addv("computeparams_set_ksizes", strs(&["len1", "large"]), true);
+    addv("signatures_save_buffer", strs(&["one"]), true);
+    addv("revindex_new_with_sigs", strs(&["one_sig"]), true);
+    addv("kmerminhash_new", strs(&["k1", "num_and_scaled", "num_large"]), true);
+    addv("kmerminhash_add_hash", strs(&["zero_zero"]), true);
+    addv("kmerminhash_get_mins", strs(&["zero_zero", "large"]), true);
+    addv("kmerminhash_md5sum", strs(&["zero_zero"]), true);
+    addv("hll_with_error_rate", strs(&["k0", "k1", "k_max"]), true);
+    addv("nodegraph_with_tables", strs(&["k1", "k0", "large"]), true);
+    for f in ["kmerminhash_merge", "kmerminhash_add_from", "kmerminhash_remove_from", "kmerminhash_intersection", "kmerminhash_intersection_union_size", "kmerminhash_jaccard", "kmerminhash_count_common", "kmerminhash_similarity", "kmerminhash_is_compatible", "kmerminhash_angular_similarity"] {
+        addv(f, strs(&["zero_zero", "k1"]), true);
+    }
+    v
+}
+
+fn scenarios_base() -> Vec<(String, String, bool)> {
     let mut v: Vec<(String, String, bool)> = vec![];
     let mut add = |f: &str, cls: &[&str], cmp: bool| {
         for c in cls {
@@ -295,6 +414,8 @@ const SEQ_FAIL: &[&str] = &[
     "ng_from_path_missing",
     "zip_missing",
     "ng_from_buffer_empty",
+    "add_seq_hi_invalid",
+    "hll_save_bad_utf8_path",
 ];
 const SEQ_PANIC: &[&str] = &["get_abunds_no_track", "hll_update_mh_default", "load_sigs_bad_moltype", "ng_from_buffer_garbage"];
 const SEQ_OK: &[&str] = &[
@@ -310,6 +431,9 @@ const SEQ_OK: &[&str] = &[
     "ok_ng_count",
     "ok_sig_json",
     "ok_str_from_cstr",
+    "ok_aa_class_hi",
+    "ok_add_protein_hi",
+    "ok_set_name_hi",
 ];
 const SEQ_QUERY: &[&str] = &["code", "msg", "backtrace"];
 
@@ -633,6 +757,8 @@ fn bin_params(cls: &str) -> (P, P) {
         "downsample_num" => (P { scaled: 0, num: 500, ..a }, P { scaled: 4, ..a }),
         "ignore_abund" => (P { track: true, ..a }, P { track: true, ..a }),
         "abund_overflow" => (P { track: true, ..a }, P { track: true, ..a }),
+        "zero_zero" => (P { scaled: 0, num: 0, ..a }, P { scaled: 0, num: 0, ..a }),
+        "k1" => (P { k: 1, ..a }, P { k: 1, ..a }),
         _ => (a, a),
     }
 }
@@ -924,6 +1050,42 @@ unsafe fn seq_step(name: &str) -> Option<String> {
             str_take(signature_save_json(s));
             signature_free(s);
         }
+        // ---- non-ASCII bytes (negative C chars) in `char` data
+        "add_seq_hi_invalid" => {
+            let x = mh_new(a);
+            let c = csb(b"ACGTACGTACGTACGTACGTACGT\x80CGTACGTACGTACGTACGTACGTACGT");
+            kmerminhash_add_sequence(x, c.as_ptr(), false);
+            kmerminhash_free(x);
+        }
+        "hll_save_bad_utf8_path" => {
+            let h = hll_with_error_rate(0.05, 21);
+            let c = csb(b"/verif/.cache/run/c20-\xff\xfe.hll");
+            hll_save(h, c.as_ptr());
+            hll_free(h);
+        }
+        "ok_aa_class_hi" => {
+            // plain exports without a landing pad: every `char` value must come back
+            for b in [0x80u8, 0xff, 0xc3, 0x7f, 0x00] {
+                sourmash_aa_to_dayhoff(b as c_char);
+                sourmash_aa_to_hp(b as c_char);
+            }
+        }
+        "ok_add_protein_hi" => {
+            let c = csb(b"MVKVYAPASSANMSVGFDV\xc3\xa9LGAAVTPVDGALLGDVVTVEAAETFSLNNLGRFADKLPSEPRENIVYQCWERFCQELGK");
+            for h in [3u32, 4, 2] {
+                let x = mh_new(P { hf: h, ..a });
+                kmerminhash_add_protein(x, c.as_ptr());
+                kmerminhash_free(x);
+            }
+        }
+        "ok_set_name_hi" => {
+            let s = signature_new();
+            let c = csb("g\u{e9}nome \u{4e2d}".as_bytes());
+            signature_set_name(s, c.as_ptr());
+            let c2 = csb(b"not utf8 \xff\x80");
+            signature_set_filename(s, c2.as_ptr());
+            signature_free(s);
+        }
         _ => return None,
     }
     Some(extra)
@@ -1088,6 +1250,8 @@ unsafe fn call_cp(f: &str, cls: &str, r: &mut Rng) -> Option<Cmp> {
                 "valid" => (0..r.range(1, 6)).map(|_| r.range(1, 100) as u32).collect(),
                 "empty" => vec![],
                 "zero_k" => vec![0, 0],
+                "len1" => vec![r.range(1, 100) as u32],
+                "large" => (0..10_000).map(|_| r.bits(32) as u32).collect(),
                 _ => return Some(Cmp::Unknown),
             };
             let p = if ks.is_empty() { dangling::<u32>() } else { ks.as_ptr() };
@@ -1101,6 +1265,28 @@ unsafe fn call_cp(f: &str, cls: &str, r: &mut Rng) -> Option<Cmp> {
 }
 
 // ---- hashing helpers, error channel, strings -------------------------------------------------
+/// the documented Dayhoff classes (comment table in encodings.rs); everything else is 'X'
+fn dayhoff_ref(aa: u8) -> u8 {
+    match aa {
+        b'C' => b'a',
+        b'A' | b'G' | b'P' | b'S' | b'T' => b'b',
+        b'D' | b'E' | b'N' | b'Q' => b'c',
+        b'H' | b'K' | b'R' => b'd',
+        b'I' | b'L' | b'M' | b'V' => b'e',
+        b'F' | b'W' | b'Y' => b'f',
+        b'*' => b'*',
+        _ => b'X',
+    }
+}
+/// the documented hydrophobic/polar classes
+fn hp_ref(aa: u8) -> u8 {
+    match aa {
+        b'A' | b'F' | b'G' | b'I' | b'L' | b'M' | b'P' | b'V' | b'W' | b'Y' => b'h',
+        b'N' | b'C' | b'S' | b'T' | b'D' | b'E' | b'R' | b'H' | b'K' | b'Q' => b'p',
+        b'*' => b'*',
+        _ => b'X',
+    }
+}
 unsafe fn fail_once() {
     let cdn = cs("ACGTA");
     sourmash_translate_codon(cdn.as_ptr());
@@ -1113,6 +1299,9 @@ unsafe fn call_misc(f: &str, cls: &str, r: &mut Rng) -> Option<Cmp> {
                 "valid" => dna(r, 21),
                 "empty" => vec![],
                 "non_acgt" => b"NNNN#xyz".to_vec(),
+                "len1" => dna(r, 1),
+                "large" => dna(r, 100_000),
+                _ if byte_pat(cls).is_some() => splice(dna(r, 21), cls),
                 _ => return Some(Cmp::Unknown),
             };
             let seed = r.bits(64);
@@ -1120,9 +1309,27 @@ unsafe fn call_misc(f: &str, cls: &str, r: &mut Rng) -> Option<Cmp> {
             c(hash_murmur(ck.as_ptr(), seed) == sourmash::_hash_murmur(&k, seed))
         }
         "sourmash_aa_to_dayhoff" | "sourmash_aa_to_hp" => {
+            if cls == "all256" {
+                // the whole domain of a C `char`, against the native function and the documented classes
+                let mut ok = true;
+                for b in 0u16..=255 {
+                    let aa = b as u8;
+                    let (got, want, doc) = if f.ends_with("dayhoff") {
+                        (sourmash_aa_to_dayhoff(aa as c_char) as u8, native(|| aa_to_dayhoff(aa)), dayhoff_ref(aa))
+                    } else {
+                        (sourmash_aa_to_hp(aa as c_char) as u8, native(|| aa_to_hp(aa)), hp_ref(aa))
+                    };
+                    ok &= want == Some(got) && got == doc;
+                }
+                return Some(c(ok));
+            }
             let aa: u8 = match cls {
                 "valid" => *r.pick(b"ACDEFGHIKLMNPQRSTVWY"),
                 "unknown" => *r.pick(&[b'#', 0u8, 0x80, 0xff, b'z']),
+                "b00" => 0x00,
+                "b7f" => 0x7f,
+                "b80" => 0x80,
+                "bff" => 0xff,
                 _ => return Some(Cmp::Unknown),
             };
             if f.ends_with("dayhoff") {
@@ -1143,6 +1350,14 @@ unsafe fn call_misc(f: &str, cls: &str, r: &mut Rng) -> Option<Cmp> {
                 "unknown3" => b"N#N".to_vec(),
                 "empty" => vec![],
                 "len5" => dna(r, 5),
+                "hi1" => vec![0x80],
+                "hi2" => vec![b'A', 0xff],
+                "hi3" => vec![0x80, b'C', 0xff],
+                "utf8_3" => vec![b'A', 0xc3, 0xa9],
+                "b7f_3" => vec![b'A', 0x7f, b'G'],
+                "lower3" => b"acg".to_vec(),
+                "hi5" => vec![0x80, 0x81, 0xfe, 0xff, 0xc3],
+                "large" => dna(r, 10_000),
                 _ => return Some(Cmp::Unknown),
             };
             let want = nat_ok(|| translate_codon(&k));
@@ -1195,11 +1410,14 @@ unsafe fn call_misc(f: &str, cls: &str, r: &mut Rng) -> Option<Cmp> {
                 "valid" => dna(r, 12),
                 "empty" => vec![],
                 "bad_utf8" => vec![0x41, 0xff, 0xfe],
+                "len1" => dna(r, 1),
+                "large" => dna(r, 100_000),
+                "utf8" | "b7f" | "b80" => splice(dna(r, 12), cls),
                 _ => return Some(Cmp::Unknown),
             };
             let cb = csb(&b);
             let s = sourmash_str_from_cstr(cb.as_ptr());
-            let ok = if cls == "bad_utf8" {
+            let ok = if std::str::from_utf8(&b).is_err() {
                 s.data.is_null() && s.len == 0 && !s.owned
             } else {
                 s.len == b.len() && s.as_str().as_bytes() == &b[..]
@@ -1296,7 +1514,14 @@ unsafe fn call_hll(f: &str, cls: &str, r: &mut Rng) -> Option<Cmp> {
                 "too_large" => 0.9,
                 "too_small" => 1e-9,
                 "inf" => f64::INFINITY,
+                "k0" | "k1" | "k_max" => 0.05,
                 _ => return Some(Cmp::Unknown),
+            };
+            let (er, k) = match cls {
+                "k0" => (0.05, 0usize),
+                "k1" => (0.05, 1),
+                "k_max" => (0.05, usize::MAX),
+                _ => (er, k),
             };
             let want = nat_ok(|| HyperLogLog::with_error_rate(er, k));
             let h = hll_with_error_rate(er, k);
@@ -1357,9 +1582,14 @@ unsafe fn call_hll(f: &str, cls: &str, r: &mut Rng) -> Option<Cmp> {
             c(ok)
         }
         "hll_add_sequence" => {
-            let (h, mut n) = hll_pair(if cls == "default" { None } else { Some((e, k)) }, &[]);
+            let (h, mut n) = hll_pair(if cls == "default" { None } else if cls == "k1" { Some((e, 1)) } else { Some((e, k)) }, &[]);
             let (s, force): (Vec<u8>, bool) = match cls {
-                "valid" | "default" => (dna(r, 120), false),
+                "valid" | "default" | "k1" => (dna(r, 120), false),
+                "len1" => (dna(r, 1), false),
+                "len_k" => (dna(r, k), false),
+                "large" => (dna(r, 200_000), false),
+                "lowercase" => (dna(r, 120).to_ascii_lowercase(), false),
+                _ if byte_pat(cls).is_some() => (splice(dna(r, 120), cls), cls.ends_with("_force")),
                 "invalid" | "invalid_force" => {
                     let mut s = dna(r, 120);
                     s[60] = b'N';
@@ -1445,6 +1675,11 @@ unsafe fn call_hll(f: &str, cls: &str, r: &mut Rng) -> Option<Cmp> {
                     "garbage" => std::fs::write(td.path().join("x.hll"), b"this is not a hyperloglog file at all, sorry").unwrap(),
                     "directory" => p = td.path().as_os_str().as_encoded_bytes().to_vec(),
                     "bad_utf8" => p.extend_from_slice(&[0xff, 0xfe]),
+                    "utf8" | "b7f" => {
+                        // a valid file under a name with a non-ASCII / DEL character
+                        p = td.path().join(if cls == "utf8" { "x\u{e9}\u{4e2d}.hll" } else { "x\u{7f}.hll" }).into_os_string().into_encoded_bytes();
+                        std::fs::write(std::str::from_utf8(&p).unwrap(), &raw).unwrap()
+                    }
                     _ => return Some(Cmp::Unknown),
                 }
                 let cp = csb(&p);
@@ -1462,12 +1697,16 @@ unsafe fn call_hll(f: &str, cls: &str, r: &mut Rng) -> Option<Cmp> {
                     "empty" => vec![],
                     "garbage" => b"this is not a hyperloglog file at all, sorry".to_vec(),
                     "truncated" => raw[..raw.len() / 2].to_vec(),
+                    "hi_bytes" => (0x80u8..=0xff).cycle().take(300).collect(),
+                    "nul_bytes" => vec![0u8; 300],
+                    "len1" => vec![b'H'],
+                    "len1_hi" => vec![0xff],
                     _ => return Some(Cmp::Unknown),
                 };
                 let p = if b.is_empty() { dangling::<c_char>() } else { b.as_ptr() as *const c_char };
                 hll_from_buffer(p, b.len())
             };
-            let ok = if cls == "valid" || cls == "gz" { !h.is_null() && hll_same(h, &n) } else { h.is_null() };
+            let ok = if ["valid", "gz", "utf8", "b7f"].contains(&cls) { !h.is_null() && hll_same(h, &n) } else { h.is_null() };
             hll_free(h);
             c(ok)
         }
@@ -1475,11 +1714,20 @@ unsafe fn call_hll(f: &str, cls: &str, r: &mut Rng) -> Option<Cmp> {
             let (h, n) = hll_pair(if cls == "default" { None } else { Some((e, k)) }, &hs);
             let td = tmpdir();
             let ok = if f == "hll_save" {
-                let path = if cls == "missing_dir" { td.path().join("no/such/dir/x.hll") } else { td.path().join("x.hll") };
-                let cp = cs(path.to_str().unwrap());
+                let path = match cls {
+                    "missing_dir" => td.path().join("no/such/dir/x.hll"),
+                    "utf8" => td.path().join("x\u{e9}\u{4e2d}.hll"),
+                    "b7f" => td.path().join("x\u{7f}.hll"),
+                    _ => td.path().join("x.hll"),
+                };
+                let mut pb = path.clone().into_os_string().into_encoded_bytes();
+                if cls == "bad_utf8" {
+                    pb.extend_from_slice(&[0xff, 0xfe]);
+                }
+                let cp = csb(&pb);
                 hll_save(h, cp.as_ptr());
-                if cls == "missing_dir" {
-                    !path.exists()
+                if cls == "missing_dir" || cls == "bad_utf8" {
+                    !path.exists() && std::fs::read_dir(td.path()).unwrap().count() == 0
                 } else {
                     std::fs::read(&path).ok() == Some(hll_bytes(&n))
                 }
@@ -1509,6 +1757,10 @@ fn param_class(cls: &str, r: &mut Rng) -> P {
         "zero_zero" => P { scaled: 0, num: 0, ..a },
         "k0" => P { k: 0, ..a },
         "scaled_max" => P { scaled: u64::MAX, ..a },
+        "k1" => P { k: 1, ..a },
+        "k2" => P { k: 2, ..a },
+        "num_and_scaled" => P { scaled: r.range(2, 1000), num: r.range(1, 1000) as u32, ..a },
+        "num_large" => P { scaled: 0, num: 1_000_000, ..a },
         _ => a,
     }
 }
@@ -1565,12 +1817,18 @@ unsafe fn call_mh(f: &str, cls: &str, r: &mut Rng) -> Option<Cmp> {
         "add_sequence" => {
             let p = match cls {
                 "protein_mh" => P { hf: 2, ..a },
-                "k0" => P { k: 0, ..a },
+                "k0" | "k1" | "k2" | "zero_zero" | "abund" => param_class(cls, r),
+                "num" => P { scaled: 0, num: 20, ..a },
                 _ => a,
             };
             let (m, mut n) = mh_pair(p, &[]);
             let (s, force): (Vec<u8>, bool) = match cls {
-                "valid" | "protein_mh" | "k0" => (dna(r, 150), false),
+                "valid" | "protein_mh" | "k0" | "k1" | "k2" | "zero_zero" | "num" | "abund" => (dna(r, 150), false),
+                "len1" => (dna(r, 1), false),
+                "len_k" => (dna(r, 21), false),
+                "large" => (dna(r, 20_000), false),
+                "lowercase" => (dna(r, 150).to_ascii_lowercase(), false),
+                _ if byte_pat(cls).is_some() => (splice(dna(r, 150), cls), cls.ends_with("_force")),
                 "invalid" | "invalid_force" => {
                     let mut s = dna(r, 150);
                     s[75] = b'N';
@@ -1595,11 +1853,25 @@ unsafe fn call_mh(f: &str, cls: &str, r: &mut Rng) -> Option<Cmp> {
                 "dna_mh" => a,
                 "dayhoff" => P { hf: 3, ..a },
                 "hp" => P { hf: 4, ..a },
+                "k1" => P { hf: 2, k: 1, ..a },
+                "k3" => P { hf: 2, k: 3, ..a },
+                "k20" => P { hf: 2, k: 20, ..a },
+                "dayhoff_k20" => P { hf: 3, k: 20, ..a },
+                "hp_k1" => P { hf: 4, k: 1, ..a },
+                "zero_zero" => P { hf: 2, scaled: 0, num: 0, ..a },
+                _ if cls.starts_with("dayhoff_") => P { hf: 3, ..a },
+                _ if cls.starts_with("hp_") => P { hf: 4, ..a },
                 _ => P { hf: 2, ..a },
             };
             let (m, mut n) = mh_pair(p, &[]);
             let s: Vec<u8> = match cls {
-                "valid" | "dna_mh" | "dayhoff" | "hp" => prot(r, 60),
+                "valid" | "dna_mh" | "dayhoff" | "hp" | "k1" | "k3" | "k20" | "dayhoff_k20" | "hp_k1" | "zero_zero" => prot(r, 60),
+                "len_k" => prot(r, 7),
+                "len_k_minus_1" => prot(r, 6),
+                "large" => prot(r, 20_000),
+                "lowercase" => prot(r, 60).to_ascii_lowercase(),
+                "stop" => splice(prot(r, 60), "x").iter().enumerate().map(|(i, b)| if i % 9 == 4 { b'*' } else { *b }).collect(),
+                _ if byte_pat(cls).is_some() => splice(prot(r, 60), cls),
                 "short" => prot(r, 3),
                 "empty" => vec![],
                 "non_aa" => b"ZZZZ####1234zzzzBBBBJJJJOOOOUUUU".to_vec(),
@@ -1617,13 +1889,31 @@ unsafe fn call_mh(f: &str, cls: &str, r: &mut Rng) -> Option<Cmp> {
         }
         "seq_to_hashes" => {
             let p = match cls {
-                "protein" | "protein_short" | "protein_k_third" | "translated_short" => P { hf: 2, ..a },
+                "protein" | "protein_short" | "protein_k_third" | "translated_short" | "protein_len1" | "translated_large" => P { hf: 2, ..a },
                 "dayhoff_short" => P { hf: 3, ..a },
                 "k0" => P { k: 0, ..a },
+                "k1" => P { k: 1, ..a },
+                "protein_k1" => P { hf: 2, k: 1, ..a },
+                "protein_k20" => P { hf: 2, k: 20, ..a },
+                _ if cls.starts_with("protein_") || cls.starts_with("translated_") => P { hf: 2, ..a },
+                _ if cls.starts_with("dayhoff_") => P { hf: 3, ..a },
+                _ if cls.starts_with("hp_") => P { hf: 4, ..a },
                 _ => a,
             };
             let (m, n) = mh_pair(p, &[]);
             let (s, force, zeroes, is_prot): (Vec<u8>, bool, bool, bool) = match cls {
+                "len1" => (dna(r, 1), false, false, false),
+                "large" => (dna(r, 100_000), false, false, false),
+                "k1" => (dna(r, 100), false, false, false),
+                "protein_k1" | "protein_k20" => (prot(r, 40), false, false, true),
+                "protein_len1" => (prot(r, 1), false, false, true),
+                "translated_large" => (dna(r, 60_000), false, false, false),
+                // non-ASCII / NUL / DEL bytes: in DNA (checked, forced), in DNA that is translated, in residues
+                _ if byte_pat(cls).is_some() && cls.starts_with("translated_") => (splice(dna(r, 100), cls), cls.ends_with("_force"), false, false),
+                _ if byte_pat(cls).is_some() && (cls.starts_with("protein_") || cls.starts_with("dayhoff_") || cls.starts_with("hp_")) => {
+                    (splice(prot(r, 40), cls), false, false, true)
+                }
+                _ if byte_pat(cls).is_some() => (splice(dna(r, 100), cls), cls.ends_with("_force"), false, false),
                 // boundary sizes around the k-mer length (21 bases / 7 residues)
                 "k_minus_1" => (dna(r, 20), false, false, false),
                 "exactly_k" => (dna(r, 21), false, false, false),
@@ -1683,6 +1973,7 @@ unsafe fn call_mh(f: &str, cls: &str, r: &mut Rng) -> Option<Cmp> {
                 "above_max_hash" => P { scaled: 1 << 32, ..a },
                 "num_full" => P { scaled: 0, num: 3, ..a },
                 "abund" | "abund_overflow" => P { track: true, ..a },
+                "zero_zero" => P { scaled: 0, num: 0, ..a },
                 _ => a,
             };
             let (m, mut n) = mh_pair(p, &hs[..5]);
@@ -1727,9 +2018,12 @@ unsafe fn call_mh(f: &str, cls: &str, r: &mut Rng) -> Option<Cmp> {
             c(ok)
         }
         "add_word" => {
-            let (m, mut n) = mh_pair(if cls == "abund_overflow" { P { track: true, ..a } } else { a }, &hs[..5]);
+            let (m, mut n) = mh_pair(if cls == "abund_overflow" { P { track: true, ..a } } else if cls == "zero_zero" { P { scaled: 0, num: 0, ..a } } else { a }, &hs[..5]);
             let w: Vec<u8> = match cls {
-                "valid" | "abund_overflow" => dna(r, 21),
+                "valid" | "abund_overflow" | "zero_zero" => dna(r, 21),
+                "len1" => dna(r, 1),
+                "large" => dna(r, 100_000),
+                _ if byte_pat(cls).is_some() => splice(dna(r, 21), cls),
                 "empty" => vec![],
                 "non_acgt" => b"NNNN#xyz".to_vec(),
                 _ => return Some(Cmp::Unknown),
@@ -1756,6 +2050,12 @@ unsafe fn call_mh(f: &str, cls: &str, r: &mut Rng) -> Option<Cmp> {
                 "present" | "abund" | "valid" => vec![hs[3], hs[0], hs[hs.len() - 1]],
                 "absent" | "empty" => vec![hs[3] ^ 1, 0, u64::MAX],
                 "empty_list" => vec![],
+                "len1" => vec![hs[7]],
+                "large" => {
+                    let mut v = hashes(r, 100_000);
+                    v.extend_from_slice(&hs[..20]);
+                    v
+                }
                 _ => return Some(Cmp::Unknown),
             };
             if name == "remove_hash" {
@@ -1773,7 +2073,11 @@ unsafe fn call_mh(f: &str, cls: &str, r: &mut Rng) -> Option<Cmp> {
             c(ok)
         }
         "get_mins" | "get_mins_size" | "md5sum" => {
-            let (m, n) = mh_pair(a, if cls == "empty" { &[] } else { &hs });
+            let many = if cls == "large" { hashes(r, 100_000) } else { vec![] };
+            let (m, n) = mh_pair(
+                if cls == "zero_zero" { P { scaled: 0, num: 0, ..a } } else { a },
+                if cls == "empty" { &[] } else if cls == "large" { &many } else { &hs },
+            );
             let ok = match name {
                 "get_mins" => {
                     let mut sz = 0usize;
@@ -1799,9 +2103,11 @@ unsafe fn call_mh(f: &str, cls: &str, r: &mut Rng) -> Option<Cmp> {
             c(ok)
         }
         "add_many" => {
-            let (m, mut n) = mh_pair(a, &hs[..5]);
+            let (m, mut n) = mh_pair(if cls == "zero_zero" { P { scaled: 0, num: 0, ..a } } else { a }, &hs[..5]);
             let xs: Vec<u64> = match cls {
-                "valid" => hashes(r, 30),
+                "valid" | "zero_zero" => hashes(r, 30),
+                "len1" => vec![r.bits(64)],
+                "large" => hashes(r, 100_000),
                 "empty_list" => vec![],
                 "dups" => vec![hs[1], hs[1], 9, 9, 9, hs[2]],
                 _ => return Some(Cmp::Unknown),
@@ -1816,7 +2122,12 @@ unsafe fn call_mh(f: &str, cls: &str, r: &mut Rng) -> Option<Cmp> {
         "set_abundances" => {
             let p = if cls == "no_track" { a } else { P { track: true, ..a } };
             let (m, mut n) = mh_pair(p, &hs[..5]);
-            let xs: Vec<u64> = if cls == "empty_list" { vec![] } else { hashes(r, 20) };
+            let xs: Vec<u64> = match cls {
+                "empty_list" => vec![],
+                "len1" => vec![r.bits(64).max(1)],
+                "large" => hashes(r, 100_000),
+                _ => hashes(r, 20),
+            };
             let abs: Vec<u64> = xs.iter().map(|_| if cls == "zero_abund" { 0 } else { r.range(1, 50) }).collect();
             let clear = cls == "clear";
             let nat = native(|| {
@@ -2043,6 +2354,9 @@ unsafe fn call_ng(f: &str, cls: &str, r: &mut Rng) -> Option<Cmp> {
                 "size2" => (21, 2, 2),
                 "size1" => (21, 1, 2),
                 "size0" => (21, 0, 2),
+                "k1" => (1, 1000, 2),
+                "k0" => (0, 1000, 2),
+                "large" => (21, 8_000_000, 3),
                 _ => return Some(Cmp::Unknown),
             };
             let want = native(|| Nodegraph::with_tables(size, nt, k));
@@ -2082,6 +2396,10 @@ unsafe fn call_ng(f: &str, cls: &str, r: &mut Rng) -> Option<Cmp> {
                 "non_acgt" | "default_non_acgt" => b"ANG".to_vec(),
                 "lowercase" => b"acg".to_vec(),
                 "empty" => vec![],
+                "len1" => dna(r, 1),
+                "long" => dna(r, 40),
+                "utf8" => vec![b'A', 0xc3, 0xa9],
+                _ if byte_pat(cls).is_some() => splice(dna(r, 3), cls),
                 _ => return Some(Cmp::Unknown),
             };
             let ck = csb(&kmer);
@@ -2160,7 +2478,7 @@ unsafe fn call_ng(f: &str, cls: &str, r: &mut Rng) -> Option<Cmp> {
             let (g0, n) = ng_pair("valid", &hs);
             let raw = ng_bytes(&n);
             let td = tmpdir();
-            let mut expect: Option<Nodegraph> = if cls == "valid" || cls == "gz" { Some(n) } else { None };
+            let mut expect: Option<Nodegraph> = if ["valid", "gz", "utf8", "b7f"].contains(&cls) { Some(n) } else { None };
             let g = if f == "nodegraph_from_path" {
                 let mut p = td.path().join("x.ng").into_os_string().into_encoded_bytes();
                 match cls {
@@ -2169,6 +2487,10 @@ unsafe fn call_ng(f: &str, cls: &str, r: &mut Rng) -> Option<Cmp> {
                     "garbage" => std::fs::write(td.path().join("x.ng"), b"this is not a nodegraph file at all, sorry").unwrap(),
                     "directory" => p = td.path().as_os_str().as_encoded_bytes().to_vec(),
                     "bad_utf8" => p.extend_from_slice(&[0xff, 0xfe]),
+                    "utf8" | "b7f" => {
+                        p = td.path().join(if cls == "utf8" { "x\u{e9}\u{4e2d}.ng" } else { "x\u{7f}.ng" }).into_os_string().into_encoded_bytes();
+                        std::fs::write(std::str::from_utf8(&p).unwrap(), &raw).unwrap()
+                    }
                     _ => return Some(Cmp::Unknown),
                 }
                 let cp = csb(&p);
@@ -2184,6 +2506,10 @@ unsafe fn call_ng(f: &str, cls: &str, r: &mut Rng) -> Option<Cmp> {
                     "empty" => vec![],
                     "garbage" => b"this is not a nodegraph file at all, sorry".to_vec(),
                     "truncated" => raw[..raw.len() / 2].to_vec(),
+                    "hi_bytes" => (0x80u8..=0xff).cycle().take(300).collect(),
+                    "nul_bytes" => vec![0u8; 300],
+                    "len1" => vec![b'O'],
+                    "len1_hi" => vec![0xff],
                     "zero_len_table" => {
                         let b = ng_raw(3, &[0]);
                         expect = Some(Nodegraph::from_reader(&b[..]).unwrap());
@@ -2206,11 +2532,20 @@ unsafe fn call_ng(f: &str, cls: &str, r: &mut Rng) -> Option<Cmp> {
             let (g, n) = ng_pair(kind, &hs);
             let td = tmpdir();
             let ok = if f == "nodegraph_save" {
-                let path = if cls == "missing_dir" { td.path().join("no/such/dir/x.ng") } else { td.path().join("x.ng") };
-                let cp = cs(path.to_str().unwrap());
+                let path = match cls {
+                    "missing_dir" => td.path().join("no/such/dir/x.ng"),
+                    "utf8" => td.path().join("x\u{e9}\u{4e2d}.ng"),
+                    "b7f" => td.path().join("x\u{7f}.ng"),
+                    _ => td.path().join("x.ng"),
+                };
+                let mut pb = path.clone().into_os_string().into_encoded_bytes();
+                if cls == "bad_utf8" {
+                    pb.extend_from_slice(&[0xff, 0xfe]);
+                }
+                let cp = csb(&pb);
                 nodegraph_save(g, cp.as_ptr());
-                if cls == "missing_dir" {
-                    !path.exists()
+                if cls == "missing_dir" || cls == "bad_utf8" {
+                    !path.exists() && std::fs::read_dir(td.path()).unwrap().count() == 0
                 } else {
                     Nodegraph::from_path(&path).map(|x| x == n).unwrap_or(false)
                 }
@@ -2252,6 +2587,12 @@ fn params_class(cls: &str) -> ComputeParameters {
             p.set_dayhoff(true);
             p.set_hp(true);
             p.set_track_abundance(true);
+        }
+        "prot_all" => {
+            p.set_dna(false);
+            p.set_protein(true);
+            p.set_dayhoff(true);
+            p.set_hp(true);
         }
         "no_ksizes" => {
             p.set_ksizes(vec![]);
@@ -2357,15 +2698,22 @@ unsafe fn call_sig(f: &str, cls: &str, r: &mut Rng) -> Option<Cmp> {
                 "empty_sig" => (signature_new(), Signature::default()),
                 "protein_sig" | "valid" if is_prot || cls == "protein_sig" => sig_pair("protein"),
                 "short" => sig_pair("protein"),
+                _ if is_prot && cls.starts_with("reduced") => sig_pair("prot_all"),
+                _ if is_prot && cls != "dna_sig" => sig_pair("protein"),
                 _ => sig_pair("default"),
             };
             let seq: Vec<u8> = if is_prot {
                 match cls {
                     "short" => prot(r, 2),
+                    "large" => prot(r, 30_000),
+                    _ if byte_pat(cls).is_some() => splice(prot(r, 80), cls),
                     _ => prot(r, 80),
                 }
             } else {
                 match cls {
+                    "large" => dna(r, 100_000),
+                    "len1" => dna(r, 1),
+                    _ if byte_pat(cls).is_some() => splice(dna(r, 200), cls),
                     "invalid" | "invalid_force" => {
                         let mut q = dna(r, 200);
                         q[100] = b'N';
@@ -2375,7 +2723,7 @@ unsafe fn call_sig(f: &str, cls: &str, r: &mut Rng) -> Option<Cmp> {
                     _ => dna(r, 200),
                 }
             };
-            let force = cls == "invalid_force";
+            let force = cls.ends_with("_force");
             let nat = native(|| {
                 let _ = if is_prot { n.add_protein(&seq) } else { n.add_sequence(&seq, force) };
                 n
@@ -2398,6 +2746,9 @@ unsafe fn call_sig(f: &str, cls: &str, r: &mut Rng) -> Option<Cmp> {
                 "valid" | "set" => dna(r, 10),
                 "empty" | "unset" | "default" => vec![],
                 "bad_utf8" => vec![0x41, 0xff, 0xfe],
+                "len1" => dna(r, 1),
+                "large" => dna(r, 100_000),
+                "utf8" | "b7f" | "b80" | "bff" => splice(dna(r, 10), cls),
                 _ => return Some(Cmp::Unknown),
             };
             let cv = csb(&v);
@@ -2522,8 +2873,8 @@ unsafe fn call_sig(f: &str, cls: &str, r: &mut Rng) -> Option<Cmp> {
         "signatures_save_buffer" => {
             let (a, na) = sig_mh_pair(DNA21, &hs, "a");
             let (b, nb) = sig_mh_pair(P { track: true, ..DNA21 }, &hs[..7], "b");
-            let list: Vec<*const SourmashSignature> = if cls == "empty_list" { vec![] } else { vec![a as *const _, b as *const _] };
-            let want: Vec<&Signature> = if cls == "empty_list" { vec![] } else { vec![&na, &nb] };
+            let list: Vec<*const SourmashSignature> = if cls == "empty_list" { vec![] } else if cls == "one" { vec![b as *const _] } else { vec![a as *const _, b as *const _] };
+            let want: Vec<&Signature> = if cls == "empty_list" { vec![] } else if cls == "one" { vec![&nb] } else { vec![&na, &nb] };
             let mut sz = 0usize;
             let p = signatures_save_buffer(if list.is_empty() { dangling() } else { list.as_ptr() }, list.len(), if cls == "gz" { 5 } else { 0 }, &mut sz);
             let buf = take_slice(p, sz);
@@ -2558,6 +2909,17 @@ unsafe fn call_sig(f: &str, cls: &str, r: &mut Rng) -> Option<Cmp> {
                 }
                 "gz" => path = format!("{}/genome-s10+s11.sig.gz", TD).into_bytes(),
                 "bad_utf8" => path.extend_from_slice(&[0xff, 0xfe]),
+                "utf8" => {
+                    // the same file under a non-ASCII name
+                    let q = td.path().join("47\u{e9}\u{4e2d}.sig");
+                    std::fs::copy(std::str::from_utf8(&path).unwrap(), &q).unwrap();
+                    path = q.into_os_string().into_encoded_bytes();
+                }
+                "moltype_utf8" => mol = Some("prot\u{e9}ine".as_bytes().to_vec()),
+                "hi_bytes" => buf = Some((0x80u8..=0xff).cycle().take(300).collect()),
+                "nul_bytes" => buf = Some(vec![0u8; 300]),
+                "len1" => buf = Some(vec![b'[']),
+                "len1_hi" => buf = Some(vec![0xff]),
                 "empty" => buf = Some(vec![]),
                 "bad_molecule" => {
                     buf = Some(br#"[{"class":"sourmash_signature","hash_function":"0.murmur64","signatures":[{"num":0,"ksize":21,"seed":42,"max_hash":100,"mins":[1,2],"md5sum":"x","molecule":"rna"}],"version":0.4}]"#.to_vec())
@@ -2629,12 +2991,23 @@ unsafe fn call_zip(f: &str, cls: &str, _r: &mut Rng) -> Option<Cmp> {
             "empty_path" => vec![],
             "bad_utf8" => vec![0x2f, 0xff, 0xfe],
             "directory" => td.path().as_os_str().as_encoded_bytes().to_vec(),
+            "utf8" => {
+                let q = td.path().join("v6\u{e9}\u{4e2d}.sbt.zip");
+                std::fs::copy(&sbt, &q).unwrap();
+                q.into_os_string().into_encoded_bytes()
+            }
+            "b00" => {
+                let mut q = sbt.clone().into_bytes();
+                q[5] = 0;
+                q
+            }
+            "len1" => b"x".to_vec(),
             _ => return Some(Cmp::Unknown),
         };
         let q = if p.is_empty() { dangling::<c_char>() } else { p.as_ptr() as *const c_char };
         let z = zipstorage_new(q, p.len());
-        let ok = if cls == "valid" {
-            !z.is_null() && SourmashZipStorage::as_rust(z).path().map(|x| x.to_string()) == Some(sbt.clone())
+        let ok = if cls == "valid" || cls == "utf8" {
+            !z.is_null() && SourmashZipStorage::as_rust(z).path().map(|x| x.as_str().as_bytes().to_vec()) == Some(p.clone())
         } else {
             z.is_null()
         };
@@ -2658,6 +3031,11 @@ unsafe fn call_zip(f: &str, cls: &str, _r: &mut Rng) -> Option<Cmp> {
                 "missing_entry" => b"no/such/entry".to_vec(),
                 "empty_path" => vec![],
                 "bad_utf8" => vec![0x61, 0xff, 0xfe],
+                "utf8" => "no/such/\u{e9}\u{4e2d}".as_bytes().to_vec(),
+                "b00" => b"no\0such".to_vec(),
+                "b80" => vec![0x61, 0x80],
+                "len1" => b"x".to_vec(),
+                "large" => vec![b'a'; 100_000],
                 _ => return Some(Cmp::Unknown),
             };
             let want = nat_ok(|| n.load(std::str::from_utf8(&p)?));
@@ -2679,6 +3057,11 @@ unsafe fn call_zip(f: &str, cls: &str, _r: &mut Rng) -> Option<Cmp> {
                 "valid" => b".sbt.v3".to_vec(),
                 "empty" => vec![],
                 "bad_utf8" => vec![0x61, 0xff, 0xfe],
+                "utf8" => "sub\u{e9}\u{4e2d}".as_bytes().to_vec(),
+                "b00" => b"su\0b".to_vec(),
+                "b80" => vec![0x61, 0x80],
+                "len1" => b"x".to_vec(),
+                "large" => vec![b'a'; 100_000],
                 _ => return Some(Cmp::Unknown),
             };
             if let Ok(t) = std::str::from_utf8(&p) {
@@ -2747,8 +3130,8 @@ unsafe fn call_rev(f: &str, cls: &str, r: &mut Rng) -> Option<Cmp> {
             Some(v) => (v.as_ptr(), v.len()),
         };
         let (ri, want_len) = if f == "revindex_new_with_sigs" {
-            let list: Vec<*const SourmashSignature> = if cls == "empty_sigs" { vec![] } else { sigs.clone() };
-            let nlist: Vec<Signature> = if cls == "empty_sigs" { vec![] } else { nsigs.clone() };
+            let list: Vec<*const SourmashSignature> = if cls == "empty_sigs" { vec![] } else if cls == "one_sig" { sigs[..1].to_vec() } else { sigs.clone() };
+            let nlist: Vec<Signature> = if cls == "empty_sigs" { vec![] } else if cls == "one_sig" { nsigs[..1].to_vec() } else { nsigs.clone() };
             let want = nat_ok(|| RevIndex::new_with_sigs(nlist, &sel(&nt), thr, nqs.as_deref())).map(|x| x.len());
             (revindex_new_with_sigs(if list.is_empty() { dangling() } else { list.as_ptr() }, list.len(), t, thr, qp, qn), want)
         } else {
